@@ -849,7 +849,7 @@ SUBS = [
     Sub('call_graph', lambda tier: _call_case(tier), run_call, quick=4000, thorough=3000,
         rule='Dict / subclass with 0-4 base keys; keywords = 1-6 callable (derived) keys whose parameters name base keys, plain keywords or other derived keys '
              '(random dag over a hidden rank order; 1 in 4 gets 1-2 back edges, no self-loops; 1 in 4 derived names also has an old value in d) plus 0-2 plain keywords; '
-             'called in the drawn order, 2 more drawn orders and the reverse (thorough: 1 case in 10 in ALL orders of its <= 6 keywords, <= 720); oracle: recursive evaluator on the '
+             'called in the drawn order, 2 more drawn orders and the reverse (thorough: about 1 case in 5 is called in ALL orders of its <= 6 keywords, <= 720); oracle: recursive evaluator on the '
              'parameter names, ValueError iff a cycle exists, result class, d unchanged. non-trivial = cyclic, or depth >= 2 with an order that is not topological',
         floor=0.3, class_floors={'cyclic': 0.08, 'deep_and_out_of_order': 0.3, 'derived=6': 0.1, 'derived_key_shadows_old_value': 0.2}),
     EnumSub('call_perms', enum_call_perms, run_call, strategy=lambda tier: _enum_sample(), quick=4000, chunks=64,
